@@ -419,6 +419,8 @@ METHODS = ['_shift_settings_idx', 'ljust', 'rjust', 'center', 'assign_str', 'cli
            dict(py='to_str', lean='toStrCode', ret='str', extra=[('nid', 'nat')], join=True,
                 outline=dict(call='renderCore', after_store='ifany:optimize',
                              entry=[('obj', 'obj'), ('optimize', 'bool'), ('reset_start', 'bool'), ('reset_end', 'bool')])),
+           dict(py='set_ansi_str', lean='setAnsiDiff', block=('settings_to_remove', 'settings_to_remove'),
+                entry=[('new_settings', 'effdict'), ('current_settings', 'effdict')], result=['settings_to_remove', 'settings_to_apply']),
            dict(py='find_settings', lean='findCore', after='_scrub_ansi_settings', ret='optpair', join=True,
                 entry=[('ansi_settings', 'slist'), ('start', 'int'), ('end', 'int'), ('reverse', 'bool')]),
            dict(py='__getitem__', lean='getItemCore', after_store='new_s._s', join=True,
